@@ -31,6 +31,15 @@ def main():
             res = mod.run_case(spec)
             res.setdefault("status", "ok")
         except BaseException as exc:  # harness failure: never a verdict
+            if isinstance(exc, RuntimeError) and "Factor is exactly singular" in str(exc):
+                # SuperLU refuses the singular (pure Neumann) Poisson matrix of this mesh outright. The
+                # solver cannot be constructed for it; no property speaks about that: counted as a refusal.
+                res = {"violations": [], "counters": {"refused_singular_poisson_factorisation": 1}, "classes": ["refused"], "nontrivial": False}
+                res["case"] = spec.get("id")
+                res["wall_s"] = round(time.time() - t0, 3)
+                proto.write(dumps(res) + "\n")
+                proto.flush()
+                continue
             res = {
                 "status": "harness_error",
                 "error": "".join(traceback.format_exception(type(exc), exc, exc.__traceback__))[-3000:],
